@@ -381,16 +381,17 @@ impl SessionManager {
                 json!(vec!["unsupported DeviceRequest version".to_string()]),
             );
         }
-        if let Some(doc_request) = request.doc_requests.first() {
+        // Every document request of the message must carry a valid reader authentication.
+        for (i, doc_request) in request.doc_requests.iter().enumerate() {
             let outcome = self.reader_authentication(doc_request.clone());
-            if outcome.errors.is_empty() {
+            if i == 0 {
                 validated_request.reader_authentication = AuthenticationStatus::Valid;
-            } else {
+                validated_request.common_name = outcome.common_name;
+            }
+            if !outcome.errors.is_empty() {
                 validated_request.reader_authentication = AuthenticationStatus::Invalid;
                 tracing::error!("Reader authentication errors: {:#?}", outcome.errors);
             }
-
-            validated_request.common_name = outcome.common_name;
         }
 
         validated_request
